@@ -43,8 +43,8 @@ ShapesThorough == {
     Shape(<<"I", "H", "O">>, <<2, 3, 5>>, <<4, 1>>, 3, 2, 2),
     Shape(<<"I", "B", "H", "O">>, <<1, 2, 4, 6>>, <<3>>, 4, 1, 1),
     Shape(<<"B", "I", "O", "O", "H">>, <<1, 2, 3, 4, 5>>, <<9>>, 3, 1, 1),
-    Shape(<<"I", "I", "B", "H", "O", "O">>, <<1, 2, 3, 4, 7, 8>>, <<5>>, 3, 0, 1),
-    Shape(<<"I", "I", "B", "H", "H", "O", "O">>, <<1, 2, 3, 4, 5, 6, 7>>, <<8>>, 2, 0, 1) }
+    Shape(<<"I", "I", "B", "H", "O", "O">>, <<1, 2, 3, 4, 7, 8>>, <<5>>, 3, 1, 1),
+    Shape(<<"I", "I", "B", "H", "H", "O", "O">>, <<1, 2, 3, 4, 5, 6, 7>>, <<8>>, 2, 1, 1) }
 ShapesOverlap == {
     Shape(<<"I", "O">>, <<1, 2>>, <<3>>, 2, 2, 1),
     Shape(<<"I", "H", "O">>, <<1, 2, 4>>, <<3>>, 1, 1, 1) }
